@@ -6,8 +6,9 @@ script / interruption point).
 Correspondence (harness/control.cpp linking the real libompl vs drv_control):
   (a) propagate / propagateWhileValid, all overloads, lock-step on scripted validity predicates;
   (b) control::RRT (both intermediate-state modes, NearestNeighborsLinear), control::SST (tree, costs, witness set;
-      step counts replayed by a twin of the planner's RNG), control::EST (grid cells + PDF weights) and control::KPIECE1
-      (GridB cells with scores/importance/neighbour counts, cell-boundary splitting; for these two the planner's own RNG
+      step counts replayed by a twin of the planner's RNG), control::EST (grid cells + PDF weights), control::KPIECE1
+      (GridB cells with scores/importance/neighbour counts, cell-boundary splitting) and control::PDST (segments, BSP cells,
+      priority-queue layout, split pieces, findDurationAndAncestor path assembly; for these three the planner's own RNG
       is the bit-exact model of C20 seeded like the real one) run with recording samplers,
       the Lean model re-run on the recorded draws: status, approximate flag, difference, path and the
       whole tree must be identical bit for bit; (b2) the same planner driven by scripted samplers on hand-shaped
@@ -41,14 +42,16 @@ class Sys:
     def __init__(self, kind, lo, hi, clo, chi, dt, mn, mx):
         self.kind, self.lo, self.hi, self.clo, self.chi = kind, list(map(float, lo)), list(map(float, hi)), \
             list(map(float, clo)), list(map(float, chi))
-        self.dt, self.mn, self.mx = float(dt), mn, mx
+        self.dt, self.mn0, self.mx0 = float(dt), mn, mx
+        # control::SpaceInformation::setup(): min = max = 0 is replaced by [1, 10]
+        self.mn, self.mx = (1, 10) if (mn == 0 and mx == 0) else (mn, mx)
 
     @property
     def nreals(self):
-        return {"point": 2, "uni": 3, "dint": 4, "car": 3}[self.kind]
+        return {"point": 2, "uni": 3, "dint": 4, "car": 3, "ode": 3}[self.kind]
 
     def toks(self):
-        return [self.kind] + [B(x) for x in self.lo + self.hi + self.clo + self.chi] + [B(self.dt), str(self.mn), str(self.mx)]
+        return [self.kind] + [B(x) for x in self.lo + self.hi + self.clo + self.chi] + [B(self.dt), str(self.mn0), str(self.mx0)]
 
     def name(self):
         return "%s dt=%g steps=[%d,%d]" % (self.kind, self.dt, self.mn, self.mx)
@@ -71,6 +74,20 @@ def sys_step(kind, s, u, dt):
     if kind == "car":
         return [s[0] + u[0] * math.cos(s[2]) * dt, s[1] + u[0] * math.sin(s[2]) * dt,
                 wrap_so2(s[2] + u[0] * (math.sin(u[1]) / math.cos(u[1])) * dt)]
+    if kind == "ode":
+        # ODEBasicSolver: boost odeint runge_kutta4, integrate_const over [0, dt] with step dt/4, then the SO(2) wrap
+        def f(q):
+            return [u[0] * math.cos(q[2]), u[0] * math.sin(q[2]), u[1]]
+        h = dt / 4.0
+        q = list(s)
+        for _ in range(4):
+            k1 = f(q)
+            k2 = f([q[i] + (h * 0.5) * k1[i] for i in range(3)])
+            k3 = f([q[i] + (h * 0.5) * k2[i] for i in range(3)])
+            k4 = f([q[i] + h * k3[i] for i in range(3)])
+            q = [q[i] + (h * (1.0 / 6.0)) * k1[i] + (h * (1.0 / 3.0)) * k2[i] + (h * (1.0 / 3.0)) * k3[i] + (h * (1.0 / 6.0)) * k4[i]
+                 for i in range(3)]
+        return [q[0], q[1], wrap_so2(q[2])]
     return [s[0] + s[2] * dt, s[1] + s[3] * dt, s[2] + u[0] * dt, s[3] + u[1] * dt]
 
 
@@ -78,7 +95,7 @@ def sys_valid(sy, boxes, s):
     for i in range(len(sy.lo)):
         if s[i] - EPS > sy.hi[i] or s[i] + EPS < sy.lo[i]:
             return False
-    if sy.kind in ("uni", "car") and not (s[2] < PI and s[2] >= -PI):
+    if sy.kind in ("uni", "car", "ode") and not (s[2] < PI and s[2] >= -PI):
         return False
     for lo, hi in boxes:
         if not (s[0] < lo[0] or s[0] > hi[0]) and not (s[1] < lo[1] or s[1] > hi[1]):
@@ -283,25 +300,29 @@ ENVS = {
 
 def make_sys(kind, variant):
     """variants 0-2: the round-1 step sizes; 3-5: non-power-of-two step sizes (0.7, 0.1, 0.3, 0.22847 — for which
-    fl(fl(k*h)/h) can be just below k) and long durations (up to 100 steps)"""
-    v = variant % 6
+    fl(fl(k*h)/h) can be just below k) and long durations (up to 100 steps); 6: minControlDuration = maxControlDuration;
+    7: min = max = 0 (the library then assumes [1, 10]) together with a degenerate control bound (low = high)"""
+    v = variant % 8
     if kind == "point":
-        dt, mn, mx = [(0.25, 1, 10), (0.1, 2, 6), (0.3, 1, 4), (0.7, 1, 12), (0.1, 1, 100), (0.22847, 1, 30)][v]
+        dt, mn, mx = [(0.25, 1, 10), (0.1, 2, 6), (0.3, 1, 4), (0.7, 1, 12), (0.1, 1, 100), (0.22847, 1, 30), (0.25, 3, 3), (0.3, 0, 0)][v]
         return Sys("point", WORLD[0], WORLD[1], [-1.0, -1.0], [1.0, 1.0], dt, mn, mx)
     if kind == "uni":
-        dt, mn, mx = [(0.2, 1, 12), (0.1, 3, 8), (0.35, 1, 5), (0.7, 1, 12), (0.1, 1, 100), (0.3, 1, 64)][v]
-        return Sys("uni", WORLD[0], WORLD[1], [-0.5, -1.2], [1.5, 1.2], dt, mn, mx)
+        dt, mn, mx = [(0.2, 1, 12), (0.1, 3, 8), (0.35, 1, 5), (0.7, 1, 12), (0.1, 1, 100), (0.3, 1, 64), (0.2, 5, 5), (0.25, 0, 0)][v]
+        return Sys("uni", WORLD[0], WORLD[1], [1.0 if v == 7 else -0.5, -1.2], [1.0 if v == 7 else 1.5, 1.2], dt, mn, mx)
+    if kind == "ode":
+        dt, mn, mx = [(0.25, 1, 10), (0.1, 2, 8), (0.3, 1, 5), (0.7, 1, 6), (0.2, 1, 30), (0.22847, 1, 12), (0.25, 3, 3), (0.25, 0, 0)][v]
+        return Sys("ode", WORLD[0], WORLD[1], [-0.5, -1.2], [1.5, 1.2], dt, mn, mx)
     if kind == "car":
-        dt, mn, mx = [(0.25, 1, 10), (0.15, 2, 7), (0.4, 1, 4), (0.7, 1, 6), (0.1, 1, 90), (0.22847, 2, 30)][v]
-        return Sys("car", WORLD[0], WORLD[1], [-0.5, -0.6], [1.5, 0.6], dt, mn, mx)
-    dt, mn, mx = [(0.2, 1, 8), (0.1, 2, 10), (0.25, 1, 3), (0.7, 1, 6), (0.1, 1, 60), (0.3, 1, 32)][v]
-    return Sys("dint", WORLD[0] + [-1.5, -1.5], WORLD[1] + [1.5, 1.5], [-1.0, -0.5], [2.0, 1.5], dt, mn, mx)
+        dt, mn, mx = [(0.25, 1, 10), (0.15, 2, 7), (0.4, 1, 4), (0.7, 1, 6), (0.1, 1, 90), (0.22847, 2, 30), (0.25, 4, 4), (0.2, 0, 0)][v]
+        return Sys("car", WORLD[0], WORLD[1], [1.0 if v == 7 else -0.5, -0.6], [1.0 if v == 7 else 1.5, 0.6], dt, mn, mx)
+    dt, mn, mx = [(0.2, 1, 8), (0.1, 2, 10), (0.25, 1, 3), (0.7, 1, 6), (0.1, 1, 60), (0.3, 1, 32), (0.2, 3, 3), (0.25, 0, 0)][v]
+    return Sys("dint", WORLD[0] + [-1.5, -1.5], WORLD[1] + [1.5, 1.5], [-1.0, 0.5 if v == 7 else -0.5], [2.0, 0.5 if v == 7 else 1.5], dt, mn, mx)
 
 
 def full_state(kind, xy, rng=None):
     if kind == "point":
         return list(xy)
-    if kind in ("uni", "car"):
+    if kind in ("uni", "car", "ode"):
         return list(xy) + [rng.uniform(-3.0, 3.0) if rng else 0.5]
     return list(xy) + [0.0, 0.0]
 
@@ -316,7 +337,7 @@ def pick_goal_kind(rng):
 
 
 def random_problem(rng, kind):
-    sy = make_sys(kind, rng.below(6))
+    sy = make_sys(kind, rng.below(8))
     boxes = []
     for _ in range(rng.range(0, 4)):
         x, y = rng.uniform(0.5, 8.5), rng.uniform(0.5, 8.5)
@@ -355,8 +376,8 @@ def parse_plan_line(line):
     t = line.split()
     off = 2 if t[0] == "plan" else 1
     kind = t[off]
-    nb = {"point": 2, "uni": 2, "dint": 4, "car": 2}[kind]
-    nr = {"point": 2, "uni": 3, "dint": 4, "car": 3}[kind]
+    nb = {"point": 2, "uni": 2, "dint": 4, "car": 2, "ode": 2}[kind]
+    nr = {"point": 2, "uni": 3, "dint": 4, "car": 3, "ode": 3}[kind]
     i = off + 1
     fl = [F(x) for x in t[i:i + 2 * nb + 4]]
     i += 2 * nb + 4
@@ -389,8 +410,8 @@ def parse_plan_line(line):
         return ("RRTi" if kv["inter"] == "1" else "RRT"), pb, 0, line.count(" U ") + line.count(" G")
     if t[0] == "sst":
         return "SST", pb, int(kv["seed"]), int(kv["iters"])
-    if t[0] in ("est", "kpiece"):
-        return {"est": "EST", "kpiece": "KPIECE1"}[t[0]], pb, int(kv["seed"]), int(kv["iters"])
+    if t[0] in ("est", "kpiece", "pdst"):
+        return {"est": "EST", "kpiece": "KPIECE1", "pdst": "PDST"}[t[0]], pb, int(kv["seed"]), int(kv["iters"])
     return ("RRTi" if kv["inter"] == "1" else "RRT"), pb, int(kv["seed"]), int(kv["iters"])
 
 
@@ -543,8 +564,8 @@ def parse_path_line(line):
     """`<op> SYS ENV <n> states controls durations` -> (op, Sys, boxes, S, C, D)"""
     t = line.split()
     kind = t[1]
-    nb = {"point": 2, "uni": 2, "dint": 4, "car": 2}[kind]
-    nr = {"point": 2, "uni": 3, "dint": 4, "car": 3}[kind]
+    nb = {"point": 2, "uni": 2, "dint": 4, "car": 2, "ode": 2}[kind]
+    nr = {"point": 2, "uni": 3, "dint": 4, "car": 3, "ode": 3}[kind]
     i = 2
     fl = [F(x) for x in t[i:i + 2 * nb + 4]]
     i += 2 * nb + 4
@@ -648,6 +669,61 @@ def path_ops_oracle(line, out):
     return None
 
 
+def pmisc_oracle(line, out):
+    """the remaining PathControl methods, judged on the implementation's output"""
+    if out == "bad-op":
+        return "bad-op on a well-formed pmisc line"
+    t = line.split()
+    j = next(i for i, x in enumerate(t) if x.startswith("seed="))
+    _, sy, boxes, S, C, D = parse_path_line(" ".join(t[:j] + t[j + 2:]))
+    nr = sy.nreals
+    head, _, rest = out.partition(" rnd ")
+    rndtxt, _, rvtxt = rest.partition(" rv=")
+    kv = dict(x.split("=") for x in head.split())
+    acc = 0.0
+    for d in D:
+        acc += d
+    if F(kv["len"]) != acc:
+        return "length() = %r, the durations add up to %r" % (F(kv["len"]), acc)
+    if kv["copyeq"] != "1" or kv["assigneq"] != "1":
+        return "copy constructor / operator= do not reproduce the path (copyeq=%s assigneq=%s)" % (kv["copyeq"], kv["assigneq"])
+    ks = [step_count(d, sy.dt) for d in D]
+    got = [] if kv["print"] == "-" else [int(x) for x in kv["print"].split(",")]
+    if got != ks:
+        return "print() shows %s steps, the durations are %s steps of %r" % (got[:12], ks[:12], sy.dt)
+    if int(kv["matrix_rows"]) != len(S):
+        return "printAsMatrix() wrote %s rows for %d states" % (kv["matrix_rows"], len(S))
+
+    def one(txt, need_valid):
+        q = parse_solution("status=- has=1 approx=0 dif=0 cb 0 0 0 0 dt=0 min=0 max=0 libcheck=- insidegoal=- path " + txt, nr)["path"]
+        if len(q["S"]) != 2 or len(q["C"]) != 1:
+            return "not a two-state path"
+        k = q["D"][0] / sy.dt
+        if abs(k - round(k)) > 1e-9 or not (sy.mn <= round(k) <= sy.mx):
+            return "duration %r is not a whole step count in [%d, %d]" % (q["D"][0], sy.mn, sy.mx)
+        u = q["C"][0]
+        if not (sy.clo[0] <= u[0] <= sy.chi[0] and sy.clo[1] <= u[1] <= sy.chi[1]):
+            return "control %s outside the bounds" % u
+        st = list(q["S"][0])
+        for _ in range(int(round(k))):
+            st = sys_step(sy.kind, st, u, sy.dt)
+            if need_valid and not sys_valid(sy, boxes, st):
+                return "an intermediate step is invalid"
+        if not sys_dist(sy.kind, st, q["S"][1]) <= (FLT_EPS if sy.kind == "ode" else 0.0):
+            return "the second state is not the propagation of the first"
+        if need_valid and not sys_valid(sy, boxes, q["S"][0]):
+            return "the first state is invalid"
+        return None
+    bad = one(rndtxt, False)
+    if bad:
+        return "random(): " + bad
+    if rvtxt.startswith("1 "):
+        bad = one(rvtxt[2:], True)
+        if bad:
+            return "randomValid(): " + bad
+    return None
+
+
 def gen_synth_paths(rng):
     """hand-built exactly replayable paths whose segments take every step count 0..100 at non-power-of-two step sizes
     (for which fl(fl(k*h)/h) can be just below k): PathControl's duration -> step-count conversion"""
@@ -658,7 +734,7 @@ def gen_synth_paths(rng):
         for a in range(0, len(ks), 8):
             kind = rng.choice(["point", "uni", "dint", "car"])
             sy = make_sys(kind, 0)
-            sy.dt, sy.mn, sy.mx = h, 1, 100
+            sy.dt, sy.mn, sy.mx, sy.mn0, sy.mx0 = h, 1, 100, 1, 100
             st = full_state(kind, [rng.uniform(1.0, 2.0), rng.uniform(1.0, 2.0)], rng)
             S, C, D = [st], [], []
             for k in ks[a:a + 8]:
@@ -734,6 +810,9 @@ def judge_plan(ck, hbin, planner, pb, seed, budget, line, out, rc, err, tag, rec
     ck.count("system:%s" % pb.sy.kind)
     ck.count("goal:%s" % pb.goal_kind)
     ck.count("goal:%s:%s" % (pb.goal_kind, planner))
+    ck.count("durations-setting:%s" % ("min=max" if pb.sy.mn0 == pb.sy.mx0 and pb.sy.mn0 > 0 else ("min=max=0 (library default [1,10])" if pb.sy.mx0 == 0 else "min<max")))
+    if pb.sy.clo[0] == pb.sy.chi[0] or pb.sy.clo[1] == pb.sy.chi[1]:
+        ck.count("control-bounds:degenerate (low = high)")
     ck.count("start-states:%d (%d invalid)" % (len(pb.starts), sum(1 for x in pb.starts if not sys_valid(pb.sy, pb.boxes, x))))
     ck.count("status:%s:%s" % (planner, sol["status"]))
     if sol["has"]:
@@ -790,7 +869,7 @@ def run(ck):
                    "model abstractions: functional states instead of buffers (aliasing modelled separately as pwvAlias), step counts "
                    "instead of double durations inside the model (converted at the protocol boundary), tree indices instead of pointers"]
     ck.assumptions += ["the user's propagator, validity checker, distance and goal are deterministic pure functions (parameters of every theorem)",
-                       "planners other than control::RRT, SST, EST and KPIECE1 (i.e. PDST, SyclopRRT, SyclopEST) are covered only on the explored runs (trace conformance, no model)",
+                       "planners other than control::RRT, SST, EST, KPIECE1 and PDST (i.e. SyclopRRT, SyclopEST) are covered only on the explored runs (trace conformance, no model)",
                        "every duration must be a whole number k >= 0 of steps; k in [minSteps,maxSteps] is proved for control::RRT "
                        "(k = 1 with intermediate states), control::EST and control::SST (exactly the drawn count); control::KPIECE1 is proved to report "
                        "1 <= k <= drawn count (motions split at cell boundaries); PDST/Syclop are only counted"]
@@ -811,8 +890,8 @@ def run(ck):
     scripts.append(("pwv", ["control"] + gen_pwv_scripts(ck.rng.fork("pwv"), 300 if quick else 4000)))
     plan_corpus = []
     for tag, script in scripts:
-        lines = [l for l in script[1:] if l.split()[0] not in ("plan", "rrt", "sst", "est", "kpiece")]
-        plan_corpus += [l for l in script[1:] if l.split()[0] in ("plan", "rrt", "sst", "est", "kpiece")]
+        lines = [l for l in script[1:] if l.split()[0] not in ("plan", "rrt", "sst", "est", "kpiece", "pdst")]
+        plan_corpus += [l for l in script[1:] if l.split()[0] in ("plan", "rrt", "sst", "est", "kpiece", "pdst")]
         if not lines:
             continue
         s = [script[0]] + lines
@@ -863,18 +942,25 @@ def run(ck):
     # Syclop needs a sampleable goal (INVALID_GOAL otherwise)
         ck.count("corpus-planner-lines")
     for planner in PLANNERS:
-        for kind in ("point", "uni", "dint", "car"):
+        for kind in ("point", "uni", "dint", "car", "ode"):
             for envname in ("empty", "wall", "two"):
                 reps = 8 if quick else 30
                 for rep in range(reps):
-                    pb = std_problem(kind, r.below(6), envname, pick_goal_kind(r)) if rep % 2 == 0 else random_problem(r, kind)
+                    pb = std_problem(kind, r.below(8), envname, pick_goal_kind(r)) if rep % 2 == 0 else random_problem(r, kind)
                     if planner.startswith("Syclop"):
                         pb.goal_kind = "pos"
                     seed = r.below(100000)
                     budget = r.choice(budgets)
-                    bias = 0.05 if r.chance(2, 3) else r.choice([0.0, 0.3])
+                    bias = 0.05 if r.chance(1, 2) else r.choice([0.0, 0.3, 1.0])
                     k = r.choice([1, 2, 3, 5])
-                    line = " ".join(["plan", planner] + pb.toks() + ["k=%d" % k, "bias=" + B(bias), "seed=%d" % seed, "budget=%d" % budget])
+                    # the point system can steer: canSteer() makes allocDirectedControlSampler() return a SteeredControlSampler
+                    # (k must stay 1: a user-set allocator takes precedence); step counts then come from steer()'s duration
+                    steer = 1 if (kind == "point" and r.chance(1, 3)) else 0
+                    if steer:
+                        k = 1
+                        ck.count("steered-control-sampler-runs:%s" % planner)
+                    line = " ".join(["plan", planner] + pb.toks() + ["k=%d" % k, "steer=%d" % steer, "bias=" + B(bias), "seed=%d" % seed,
+                                                                     "budget=%d" % budget])
                     ck.count("directed-control-samples:k=%d" % k)
                     jobs.append((planner, pb, seed, budget, line))
     records = []
@@ -891,7 +977,7 @@ def run(ck):
             for inter in (0, 1):
                 reps = 8 if quick else 30
                 for rep in range(reps):
-                    pb = std_problem(kind, rr.below(6), envname, pick_goal_kind(rr)) if rep % 2 == 0 else random_problem(rr, kind)
+                    pb = std_problem(kind, rr.below(8), envname, pick_goal_kind(rr)) if rep % 2 == 0 else random_problem(rr, kind)
                     seed = rr.below(100000)
                     k = rr.choice([1, 1, 2, 5])
                     iters = rr.choice([0, 3, 40, 400, 1500, 3000] if quick else [0, 1, 7, 60, 600, 3000, 6000])
@@ -904,7 +990,7 @@ def run(ck):
     for kind in ("point", "uni", "dint", "car"):
         for envname in ("empty", "wall", "two"):
             for rep in range(10 if quick else 30):
-                pb = std_problem(kind, rs3.below(6), envname, pick_goal_kind(rs3)) if rep % 2 == 0 else random_problem(rs3, kind)
+                pb = std_problem(kind, rs3.below(8), envname, pick_goal_kind(rs3)) if rep % 2 == 0 else random_problem(rs3, kind)
                 seed = rs3.below(100000)
                 iters = rs3.choice([0, 5, 60, 500, 2000] if quick else [0, 2, 30, 300, 2000, 5000])
                 sel, prune = rs3.choice([(0.2, 0.1), (1.0, 0.5), (2.0, 0.25), (0.5, 1.5), (0.0, 0.0)])
@@ -916,7 +1002,7 @@ def run(ck):
     for kind in ("point", "uni", "dint", "car"):
         for envname in ("empty", "wall", "two"):
             for rep in range(10 if quick else 30):
-                pb = std_problem(kind, rs4.below(6), envname, pick_goal_kind(rs4)) if rep % 2 == 0 else random_problem(rs4, kind)
+                pb = std_problem(kind, rs4.below(8), envname, pick_goal_kind(rs4)) if rep % 2 == 0 else random_problem(rs4, kind)
                 seed = rs4.below(100000)
                 iters = rs4.choice([0, 5, 60, 500, 2000] if quick else [0, 2, 30, 300, 2000, 5000])
                 line = " ".join(["est"] + pb.toks() + ["cell=" + B(rs4.choice([1.0, 0.5, 2.5, 0.3])), "k=%d" % rs4.choice([1, 2, 3]),
@@ -927,18 +1013,29 @@ def run(ck):
     for kind in ("point", "uni", "dint", "car"):
         for envname in ("empty", "wall", "two"):
             for rep in range(10 if quick else 30):
-                pb = std_problem(kind, rs5.below(6), envname, pick_goal_kind(rs5)) if rep % 2 == 0 else random_problem(rs5, kind)
+                pb = std_problem(kind, rs5.below(8), envname, pick_goal_kind(rs5)) if rep % 2 == 0 else random_problem(rs5, kind)
                 seed = rs5.below(100000)
                 iters = rs5.choice([0, 5, 60, 500, 2000] if quick else [0, 2, 30, 300, 2000, 5000])
                 line = " ".join(["kpiece"] + pb.toks() + ["cell=" + B(rs5.choice([1.0, 0.5, 2.5, 0.3])), "nclose=%d" % rs5.choice([30, 30, 3, 1, 0]),
                                                           "bias=" + B(rs5.choice([0.05, 0.0, 0.4, 1.0])), "seed=%d" % seed, "iters=%d" % iters])
                 rjobs.append(("KPIECE1", pb, seed, iters, line))
+    # ---------------- (b6) control PDST lock-step: recorded sampler draws + the RNG model for rng_
+    rs6 = ck.rng.fork("pdst")
+    for kind in ("point", "uni", "dint", "car"):
+        for envname in ("empty", "wall", "two"):
+            for rep in range(10 if quick else 30):
+                pb = std_problem(kind, rs6.below(8), envname, pick_goal_kind(rs6)) if rep % 2 == 0 else random_problem(rs6, kind)
+                seed = rs6.below(100000)
+                iters = rs6.choice([0, 5, 60, 500, 1500] if quick else [0, 2, 30, 300, 1500, 4000])
+                line = " ".join(["pdst"] + pb.toks() + ["k=%d" % rs6.choice([1, 2, 3]), "bias=" + B(rs6.choice([0.05, 0.0, 0.4, 1.0])),
+                                                        "seed=%d" % seed, "iters=%d" % iters])
+                rjobs.append(("PDST", pb, seed, iters, line))
     plays, impls = [], []
     with concurrent.futures.ThreadPoolExecutor(max_workers=min(16, os.cpu_count() or 4)) as ex:
         futs = [ex.submit(run_one, ck, hbin, j[4], NOLEAK) for j in rjobs]
         for j, fu in zip(rjobs, futs):
             out, rc, err = fu.result()
-            tag = {"SST": "sst-lockstep", "EST": "est-lockstep", "KPIECE1": "kpiece-lockstep"}.get(j[0], "rrt-lockstep")
+            tag = {"SST": "sst-lockstep", "EST": "est-lockstep", "KPIECE1": "kpiece-lockstep", "PDST": "pdst-lockstep"}.get(j[0], "rrt-lockstep")
             sol = judge_plan(ck, hbin, j[0], j[1], j[2], j[3], j[4], out, rc, err, tag, records)
             if sol is not None and len(out) >= 2:
                 plays.append(out[1])
@@ -946,7 +1043,12 @@ def run(ck):
                 ck.count(tag + ":draws", out[1].count(" C ") if j[0] == "KPIECE1" else
                          out[1].count(" G") + out[1].count(" U ") + out[1].count(" N ") + out[1].count(" X"))
                 ck.count(tag + ":goal-biased-draws", out[1].count(" G"))
-                if j[0] in ("EST", "KPIECE1"):
+                if j[0] == "PDST":
+                    hd = dict(x.split("=") for x in out[0].partition(" | ")[2].split()[1:5] if "=" in x)
+                    ck.count(tag + ":tree-nodes", int(hd.get("n", 0)))
+                    ck.count(tag + ":cells", int(hd.get("cells", 0)))
+                    ck.count(tag + ":split-motions", out[0].partition(" | ")[2].count(" ; 1]"))
+                elif j[0] in ("EST", "KPIECE1"):
                     hd = dict(x.split("=") for x in out[0].partition(" | ")[2].split()[1:4] if "=" in x)
                     ck.count(tag + ":tree-nodes", int(hd.get("size", 0)))
                     ck.count(tag + ":cells", int(hd.get("cells", 0)))
@@ -970,7 +1072,7 @@ def run(ck):
                           obligation="correspondence control: control::%s::solve vs its Lean model on the recorded draws (first differing token %d)" % (j[0], pos))
                 ck.log("control %s lock-step disagreement (seed %d iters %d) at token %d" % (j[0], j[2], j[3], pos))
                 break
-            ck.count({"SST": "sst", "EST": "est", "KPIECE1": "kpiece"}.get(j[0], "rrt") + "-lockstep:identical-runs")
+            ck.count({"SST": "sst", "EST": "est", "KPIECE1": "kpiece", "PDST": "pdst"}.get(j[0], "rrt") + "-lockstep:identical-runs")
 
     # ---------------- (b2) control RRT on hand-shaped draw scripts: real planner with scripted samplers vs the model
     rs = ck.rng.fork("rrtplay")
@@ -1004,6 +1106,8 @@ def run(ck):
     pair_lines = []
     for planner, pb, sol, fails, line in records:
         p = sol["path"]
+        if pb.sy.kind == "ode":
+            continue      # no Lean twin of the ODE-solver propagator: oracle-only (planner runs + pmisc)
         lean_lines.append(path_op("replayok", pb, p))
         expect.append((planner, pb, sol, fails, line))
         if len(p["S"]) <= 400:
@@ -1019,6 +1123,30 @@ def run(ck):
                     pair_lines.append(" ".join(["pinterp"] + pb.sy.toks() + pb.env_toks() + [str(n)] + Sb + Cb + Db))
                     pair_lines.append(" ".join(["pgeom"] + pb.sy.toks() + pb.env_toks() + [str(n)] + Sb + Cb + Db))
                     ck.count("path-mutation:" + what)
+    # ---------------- the remaining PathControl methods (length, copy, operator=, print, printAsMatrix, random, randomValid)
+    rm = ck.rng.fork("pmisc")
+    mjobs = []
+    cand = [x for x in records if 2 <= len(x[2]["path"]["S"]) <= 200]
+    rm.shuffle(cand)
+    for planner, pb, sol, fails, line in cand[:40 if quick else 300]:
+        Sb, Cb, Db = sol["path"]["bits"]
+        mjobs.append(" ".join(["pmisc"] + pb.sy.toks() + pb.env_toks() + ["seed=%d" % rm.below(100000), "attempts=%d" % rm.choice([1, 20, 200]),
+                                                                        str(len(sol["path"]["S"]))] + Sb + Cb + Db))
+    with concurrent.futures.ThreadPoolExecutor(max_workers=min(16, os.cpu_count() or 4)) as ex:
+        futs = [ex.submit(run_one, ck, hbin, ln, NOLEAK) for ln in mjobs]
+        nbad = 0
+        for ln, fu in zip(mjobs, futs):
+            out, rc, err = fu.result()
+            ck.count("op:pmisc")
+            bad = ("harness rc=%s %s" % (rc, (err or "")[-300:])) if rc != 0 or not out else pmisc_oracle(ln, out[0])
+            if out and " rv=1 " in out[0]:
+                ck.count("pmisc:randomValid-succeeded")
+            if bad:
+                nbad += 1
+                if nbad <= 3:
+                    ck.report({"engine": "control", "planner": "-", "clause": "pathcontrol-pmisc", "what": bad}, script=["control", ln],
+                              expected="PathControl methods agree with the path's triples", observed=[(out or [""])[0][:3000], bad], engine="control")
+                    ck.log("property failure: PathControl (pmisc): %s" % bad)
     synth = gen_synth_paths(ck.rng.fork("synth"))
     ck.count("synthetic-path-lines (every step count 0..100 at h = 0.7, 0.1, 0.3, 0.22847, 1/3, 0.01)", len(synth))
     pair_lines += synth
@@ -1089,7 +1217,15 @@ def replay(ck, data):
     rcode = 0
     for line in script[1:]:
         t = line.split()
-        if t[0] in ("plan", "rrt", "sst", "est", "kpiece"):
+        if t[0] == "pmisc":
+            out, rc, err = run_one(ck, hbin, line, NOLEAK)
+            bad = ("harness rc=%s" % rc) if rc != 0 or not out else pmisc_oracle(line, out[0])
+            print("pmisc -> %s" % ((out or ["<none>"])[0][:300]))
+            if bad:
+                print("PROPERTY FAILS [pathcontrol-pmisc]: " + bad)
+                rcode = 1
+            continue
+        if t[0] in ("plan", "rrt", "sst", "est", "kpiece", "pdst"):
             out, rc, err = run_one(ck, hbin, line, NOLEAK)
             if rc != 0 or not out:
                 print("harness rc=%s\n%s" % (rc, (err or "")[-3000:]))
@@ -1103,7 +1239,7 @@ def replay(ck, data):
             for f in fails:
                 print("PROPERTY FAILS [%s] segment %d: %s" % (f["clause"], f["seg"], f["detail"]))
                 rcode = 1
-            if t[0] in ("rrt", "sst", "est", "kpiece") and len(out) >= 2:
+            if t[0] in ("rrt", "sst", "est", "kpiece", "pdst") and len(out) >= 2:
                 model, _, _ = ck.run_bin(ck.driver(DRIVER), ["control", out[1]])
                 if model and model[0] != out[0]:
                     print("the planner model and the implementation disagree on the recorded draws")
@@ -1135,16 +1271,18 @@ MANIFEST = {
             "point) over executable models of SpaceInformation::propagateWhileValid (both overloads), SimpleDirectedControlSampler::sampleTo, "
             "PathControl::check/interpolate/asGeometric, control::RRT::solve (both intermediate-state modes), control::SST::solve (witness set, "
             "best-representative replacement, solution snapshots), control::EST::solve (grid cells, one PDF element per cell) and "
-            "control::KPIECE1::solve (GridB discretization, CloseSamples, splitting of motions at cell boundaries): the reported (state, control, steps) "
+            "control::KPIECE1::solve (GridB discretization, CloseSamples, splitting of motions at cell boundaries) and control::PDST::solve "
+            "(segments split at BSP cell boundaries, priority queue, exact/closest bookkeeping, findDurationAndAncestor path assembly): the reported (state, control, steps) "
             "triples replay exactly with every intermediate step valid, durations are whole step counts in range, the first state is a "
             "valid start and an exact status implies the goal. The models are tied to the code by bit-exact lock-step runs (propagation "
-            "core on scripted validity predicates; control RRT, SST, EST and KPIECE1 re-run on the draws recorded from the real planners, comparing the "
-            "whole tree, costs, witnesses, grid cells, PDF weights, scores and importances). PDST, SyclopRRT and SyclopEST have no model: their reported paths are checked by trace conformance "
+            "core on scripted validity predicates; control RRT, SST, EST, KPIECE1 and PDST re-run on the draws recorded from the real planners, comparing the "
+            "whole tree, costs, witnesses, grid cells, PDF weights, scores, importances, BSP cells and the priority-queue layout). SyclopRRT and SyclopEST have no model, "
+            "and SteeredControlSampler, the ODESolver-based propagator and PathControl's print/copy/random methods are oracle-only: their reported paths are checked by trace conformance "
             "only — every explored run (4 systems incl. a non-additive car, 3 goal kinds incl. a plain predicate goal, box environments, seeds, evaluation budgets, k in {1,2,3,5} directed control samples) is re-propagated by an independent "
             "oracle and by the Lean spec replayOK; they are covered on the explored runs and nowhere else.",
     "note": "Trusted: Lean kernel and the three standard axioms; the hand-written models outside the explored scripts; the harness's three "
             "systems and recording wrappers; the Python copy of the systems. User propagators other than the four, ODE-solver "
-            "propagators and planners other than control RRT / SST / EST / KPIECE1 beyond the explored runs are not verified; the sampler bound theorem is "
+            "propagators and planners other than control RRT / SST / EST / KPIECE1 / PDST beyond the explored runs are not verified; the sampler bound theorem is "
             "exact arithmetic (IEEE rounding executed, not verified).",
     "technique": "Lean 4 proof (tree invariant by induction over the script) + lock-step differential correspondence + trace conformance "
                  "with an independent replay oracle",
